@@ -19,18 +19,19 @@ import (
 const NumRegisters = 8
 
 type Environment struct {
-	store     map[string]Object
-	outer     *Environment
-	stack     *Environment // Different from outer when we attach to top level lambdas. see logic in NewFunctionEnvironment.
-	depth     int
-	cacheKey  string
-	ids       *trie.Trie
-	numSet    int64
-	getMiss   int64
-	cantCache bool
-	function  *Function
-	registers [NumRegisters]int64
-	numReg    int
+	store      map[string]Object
+	outer      *Environment
+	stack      *Environment // Different from outer when we attach to top level lambdas. see logic in NewFunctionEnvironment.
+	depth      int
+	cacheKey   string
+	ids        *trie.Trie
+	numSet     int64
+	numCreated int64 // names created in the toplevel environment so far (see NumCreated).
+	getMiss    int64
+	cantCache  bool
+	function   *Function
+	registers  [NumRegisters]int64
+	numReg     int
 }
 
 // Truly empty store suitable for macros storage.
@@ -380,6 +381,13 @@ func (e *Environment) NumSet() int64 {
 	return e.numSet
 }
 
+// NumCreated returns the cumulative number of names created in the toplevel environment so far.
+// A function that assigned such a name while it did not exist assigned its own local variable;
+// the same call now changes the global: results memoized before cannot stand for it.
+func (e *Environment) NumCreated() int64 {
+	return e.numCreated
+}
+
 func (e *Environment) IsRef(name string) (*Environment, string) {
 	log.Debugf("IsRef(%s) called at %d %v", name, e.depth, e.cacheKey)
 	r, ok := e.store[name]
@@ -396,6 +404,7 @@ func (e *Environment) IsRef(name string) (*Environment, string) {
 func (e *Environment) create(name string, val Object) Object {
 	if e.depth == 0 {
 		e.numSet++
+		e.numCreated++
 		record(e.ids, name, val.Type())
 	}
 	val = Value(val)
